@@ -669,7 +669,20 @@ pub fn deviate(rng: &mut Rng, inst: &Inst) -> Option<(Vec<Tok>, &'static str)> {
     let required: Vec<usize> = (0..inst.toks.len()).filter(|i| inst.roles[*i] == Role::Required).collect();
     let mut toks = inst.toks.clone();
     for _attempt in 0..8 {
-        match rng.below(6) {
+        match rng.below(7) {
+            6 => {
+                // an integer member spelled as a float (5.0): not an integer token
+                let ints: Vec<usize> = (0..toks.len())
+                    .filter(|i| inst.int_types[*i].is_some() && inst.roles[*i] == Role::Required && toks[*i].kind == TK::Int)
+                    .collect();
+                let Some(&i) = ints.get(rng.below(ints.len().max(1))) else { continue };
+                let v = match &toks[i].val {
+                    crate::doc::Val::Int(v) if v.unsigned_abs() < (1u128 << 50) => *v,
+                    _ => continue,
+                };
+                toks[i] = Tok::float(v as f64, format!("{v}.0"));
+                return Some((toks, "integer_spelled_as_float"));
+            }
             5 => {
                 // a second member in a taggedunion (its tag occurs nowhere else in the definition)
                 if inst.union_sites.is_empty() {
